@@ -102,6 +102,9 @@ class NTPClient(Service, discriminator="ntp-client"):
         if not isinstance(payload, NTPPacket):
             self.sys_log.warning(f"{self.name}: Failed to parse NTP update")
             return False
+        if payload.ntp_reply is None:
+            # a request from a peer (e.g. a client pointed at a host that runs no NTP server), not a server's answer
+            return False
         if payload.ntp_reply.ntp_datetime:
             self.time = payload.ntp_reply.ntp_datetime
             return True
